@@ -370,7 +370,7 @@ def check_C13(ctx):
     q = ctx.tier == 'quick'
     r = assume_model(ctx, 'MpfContract', {'P': 6 if q else 8}, timeout=3000)
     ctx.model_must_hold(r, what='(float accuracy/exactness predicates of SemF vs brute force on small dyadics)')
-    trace_drivers(ctx, [('c13', 16, 1500), ('c13s', 16, 1500), ('corners_f', 16, 1500), ('alias_qf', 4, 900), ('hist_qf', 8, 900)], pure_drivers=['c13', 'c13s'])
+    trace_drivers(ctx, [('c13', 16, 1500), ('c13s', 16, 1500), ('corners_f', 16, 1500), ('alias_qf', 4, 900), ('hist_qf', 8, 900), ('c13_inv', 8, 900)], pure_drivers=['c13', 'c13s', 'c13_inv'])      # c13_inv: operands constructed from a result on a limb boundary (carry out of the discarded limbs, boundary quotients)
     return ctx.finish('model_checking',
         rule='R2: MpfContract checks the accuracy/exactness predicates the trace specification applies (Close, AccurateQuot, AccurateSqrt, CopyOf) against brute-force rational '
              'arithmetic on all small dyadics. R3/R1: add/sub/mul/div/sqrt and _ui forms, set_q/set_z/set_d, exact functions, comparisons and conversions for destination and operand precisions '
